@@ -42,6 +42,8 @@ package ztest
 
 //@ func (sm *ztest.sequenceMatcher) GetOpCodes() (codes []opCode)
 //@   mathint
+//@   local matching []match
+//@   local opCodes []opCode
 //@   requires 0 <= len(sm.a) && len(sm.a) <= 9223372036854775807 && 0 <= len(sm.b) && len(sm.b) <= 9223372036854775807     -- Go: a slice length is a non-negative int
 //@   ensures TilesUpTo(sm.a, sm.b, codes, len(sm.a), len(sm.b))                           [C20] "the edit script covers both texts contiguously, equal ranges really are equal, no empty step"
 //@   ensures sm.a == old(sm.a) && sm.b == old(sm.b)
